@@ -32,7 +32,14 @@ func Main(reg map[string]hk.Check, reps map[string]hk.Replayer) {
 	slog.SetDefault(slog.New(hk.LogRecorder()))
 	vrt.Seed = *seed
 	if *fresh {
-		engine.FreshChild()
+		os.Setenv("VERIF_FRESH_CHILD", "1")
+		rp := reps[*prop]
+		if rp == nil {
+			fmt.Fprintln(os.Stderr, "BROKEN: no replayer for", *prop)
+			os.Exit(2)
+		}
+		cctx := &engine.Ctx{Res: engine.NewResult(*prop, *tier), Tier: *tier}
+		engine.FreshChild(func(r engine.Replay) []*engine.Finding { return rp(cctx, r) })
 		return
 	}
 	ctx := &engine.Ctx{Res: engine.NewResult(*prop, *tier), Tier: *tier, Shard: *shard, NShards: *nshards, Seed: *seed,
